@@ -159,7 +159,8 @@ func runC05(c *runCtx) {
 		if rb.Bool() {
 			sql = strings.ReplaceAll(sql, " ", g.r.Pick([]string{"\n", " \n ", "\t", "  "}))
 		}
-		for _, bad := range []string{"'unterminated", "\"unterminated", "1e", "1.", "\\", "'a\\q'", "^", "`x", "\"two\nlines\"", "$$never closed", "$t$ never\nclosed", "'two\nlines"} {
+		for _, bad := range []string{"'unterminated", "\"unterminated", "1e", "1.", "\\", "'a\\q'", "^", "`x", "\"two\nlines\"", "$$never closed", "$t$ never\nclosed", "'two\nlines",
+			"'it''s", "'a''b''c", "'a\\'b", "'a\\\\", "'\\n x", "'é", "'名前 x", "'tab\there", "\"a\"\"b", "\"é", "`a``b", "`é", "'a''\nb", "'x /* y", "'x -- y"} {
 			words := strings.Fields(sql)
 			if len(words) < 2 {
 				continue
